@@ -124,3 +124,73 @@ func (li *Language) Update(input UpdateInput) error {
 
 	return nil
 }
+
+// ValidateKeyCondition reports whether expression has the shape DynamoDB requires of a KeyConditionExpression:
+// an equality test on the partition key, optionally ANDed with one comparison, BETWEEN or begins_with on the sort key.
+// An expression that does not parse is left to Match, which reports the syntax error.
+func (li *Language) ValidateKeyCondition(expression string, aliases map[string]string, hashKey, rangeKey string) error {
+	p := language.NewParser(language.NewLexer(expression))
+	conditional := p.ParseConditionalExpression()
+
+	if len(p.Errors()) != 0 || conditional == nil {
+		return nil
+	}
+
+	isAttr := func(e language.Expression, name string) bool {
+		id, ok := e.(*language.Identifier)
+		if !ok || name == "" || strings.HasPrefix(id.Value, ":") {
+			return false
+		}
+
+		if alias, found := aliases[id.Value]; found {
+			return alias == name
+		}
+
+		return id.Value == name
+	}
+
+	isValue := func(e language.Expression) bool {
+		id, ok := e.(*language.Identifier)
+
+		return ok && strings.HasPrefix(id.Value, ":")
+	}
+
+	isHashCondition := func(e language.Expression) bool {
+		infix, ok := e.(*language.InfixExpression)
+		if !ok || infix.Operator != "=" {
+			return false
+		}
+
+		return (isAttr(infix.Left, hashKey) && isValue(infix.Right)) || (isAttr(infix.Right, hashKey) && isValue(infix.Left))
+	}
+
+	isRangeCondition := func(e language.Expression) bool {
+		switch cond := e.(type) {
+		case *language.InfixExpression:
+			switch cond.Operator {
+			case "=", "<", "<=", ">", ">=":
+				return isAttr(cond.Left, rangeKey) && isValue(cond.Right)
+			}
+		case *language.BetweenExpression:
+			return isAttr(cond.Left, rangeKey) && isValue(cond.Range[0]) && isValue(cond.Range[1])
+		case *language.CallExpression:
+			fn, ok := cond.Function.(*language.Identifier)
+
+			return ok && fn.Value == "begins_with" && len(cond.Arguments) == 2 && isAttr(cond.Arguments[0], rangeKey) && isValue(cond.Arguments[1])
+		}
+
+		return false
+	}
+
+	if isHashCondition(conditional.Expression) {
+		return nil
+	}
+
+	if and, ok := conditional.Expression.(*language.InfixExpression); ok && strings.EqualFold(and.Operator, "AND") {
+		if (isHashCondition(and.Left) && isRangeCondition(and.Right)) || (isHashCondition(and.Right) && isRangeCondition(and.Left)) {
+			return nil
+		}
+	}
+
+	return fmt.Errorf("%w: Query condition missed key schema element or is not a key condition: %s", ErrSyntaxError, expression)
+}
